@@ -53,22 +53,31 @@ def instances(tier):
     for method in ("geometric_mean", "single_azimuth", "azimuthal", "diffuse_field"):
         for order in ("long_then_short", "short_then_long"):
             out.append({"name": f"chunk_{method}_{order}", "func": "run_chunk", "kwargs": {"method": method, "order": order}})
+    # a settings file that carries an explicit fft_settings dictionary (as written by settings.save() after a process() call)
+    for method in ("geometric_mean", "azimuthal"):
+        out.append({"name": f"chunk_{method}_explicit_fft", "func": "run_chunk", "kwargs": {"method": method, "order": "long_then_short", "explicit_fft": True}})
     return out
 
 
 def run_xh(rep, tier):
     Ld = L()
     S = Ld["settings"]
-    pre, pro = S.HvsrPreProcessingSettings(), S.HvsrTraditionalProcessingSettings()
-    snap = (dict(pre.attr_dict), dict(pro.attr_dict))
+    from harness.C09 import mutable_ids
+    pre, pro = S.HvsrPreProcessingSettings(), S.HvsrTraditionalProcessingSettings(fft_settings={"n": 4})
+    snap = (repr(pre.attr_dict), repr(pro.attr_dict))
     got_pre, got_pro = worker_passes(Ld)(pre, pro)
-    copies = (got_pre is not pre) and (got_pro is not pro) and snap == (dict(pre.attr_dict), dict(pro.attr_dict))
-    rep.notes.append(f"worker hands private copies of the chunk's settings objects to the library: {copies}")
+    unchanged = snap == (repr(pre.attr_dict), repr(pro.attr_dict))
+    if got_pre is pre or got_pro is pro or not unchanged:
+        copies = "0"
+    else:
+        shared_nested = (set(mutable_ids(got_pro)) & set(mutable_ids(pro))) | (set(mutable_ids(got_pre)) & set(mutable_ids(pre)))
+        copies = "2" if shared_nested else "1"
+    rep.notes.append("what the worker hands to the library for the chunk's settings objects: " + {"0": "the chunk's own objects", "1": "private deep copies", "2": "copies that share nested objects"}[copies])
     r = crosshair_obligation(rep, "xhair/C19_fft.py", "chunk_fft_length", twin="chunk_fft_length_reach", timeout_s=60 if tier == "quick" else 200,
-                             key="fft-length-leaks-within-chunk", extra_env={"XH_WORKER_COPIES": "1" if copies else "0"})
+                             key="fft-length-leaks-within-chunk", extra_env={"XH_WORKER_COPIES": copies})
     if r["status"] == "refuted":
         # the same witness, end to end through the real worker function on files written to disk
-        rep.candidate({"kind": "chunk", "method": "geometric_mean", "order": "long_then_short"}, "worker output for a file depends on the file handled before it in the chunk", key="output-depends-on-chunk-history")
+        rep.candidate({"kind": "chunk", "method": "geometric_mean", "order": "long_then_short", "explicit_fft": "True" in str(r.get("counterexample", {}).get("args", ""))}, "worker output for a file depends on the file handled before it in the chunk", key="output-depends-on-chunk-history")
 
 
 def worker_passes(Ld):
@@ -122,9 +131,11 @@ def run_dataflow(rep, tier):
         rep.sample({"worker_passes_chunk_objects": {"preprocessing": shared[0], "processing": shared[1]}})
 
 
-def make_settings(S, method):
+def make_settings(S, method, explicit_fft=False):
     fcs, bws = C01.CFG[4]
     kw = PP.settings_kwargs("linear_triangular", bws["linear_triangular"], fcs, width=0.3)
+    if explicit_fft:
+        kw["fft_settings"] = {"n": 4}
     pre = S.HvsrPreProcessingSettings(orient_to_degrees_from_north=None, filter_corner_frequencies_in_hz=[None, None], window_length_in_seconds=None, detrend=None)
     if method == "geometric_mean":
         return pre, S.HvsrTraditionalProcessingSettings(method_to_combine_horizontals=method, **kw)
@@ -140,7 +151,7 @@ def cells(res):
     return [x for h in (res.hvsrs if hasattr(res, "hvsrs") else [res]) for x in np.atleast_1d(np.asarray(h.amplitude, dtype=object)).flat]
 
 
-def run_chunk(rep, tier, method, order):
+def run_chunk(rep, tier, method, order, explicit_fft=False):
     Ld = L()
     S, PR, P = Ld["settings"], Ld["preprocessing"], Ld["processing"]
     lens = (5, 3) if order == "long_then_short" else (3, 5)
@@ -153,17 +164,17 @@ def run_chunk(rep, tier, method, order):
             p_pre, p_pro = passes(pre, pro)           # what the real worker would hand to the library for these chunk objects
             recs = PR.preprocess([PP.mkrec(Ld, ctx, "r", n, DT, comps=samples)], p_pre)
             return C01.process(P, recs, p_pro)
-        pre, pro = make_settings(S, method)           # one pair of objects for the whole chunk
+        pre, pro = make_settings(S, method, explicit_fft)           # one pair of objects for the whole chunk
         worker(sa, lens[0], pre, pro)
         second_in_chunk = worker(sb, lens[1], pre, pro)
-        pre2, pro2 = make_settings(S, method)         # freshly loaded settings, file alone
+        pre2, pro2 = make_settings(S, method, explicit_fft)         # freshly loaded settings, file alone
         alone = worker(sb, lens[1], pre2, pro2)
         return sa, sb, cells(second_in_chunk), cells(alone), pro.fft_settings, pro2.fft_settings
 
     for ctx, (sa, sb, a, b, f1, f2) in rep.explore(run, max_paths=200, timeout_ms=4000):
         def W(m):
             val = concretiser(m)
-            return {"kind": "chunk", "method": method, "order": order, "file_a": {c: [val(v) for v in sa[c]] for c in sa}, "file_b": {c: [val(v) for v in sb[c]] for c in sb},
+            return {"kind": "chunk", "method": method, "order": order, "explicit_fft": explicit_fft, "file_a": {c: [val(v) for v in sa[c]] for c in sa}, "file_b": {c: [val(v) for v in sb[c]] for c in sb},
                     "fft_in_chunk": f1, "fft_alone": f2}
         bad = [z3.BoolVal(True)] if len(a) != len(b) else [Sym.lift(x) != Sym.lift(y) for x, y in zip(a, b)]
         rep.prove(ctx, f"{method}: the result for a file does not depend on the file handled before it in the same chunk ({order})", bad, witness=W,
@@ -199,10 +210,11 @@ def replay(spec):
         _write_saf(fa, 200 if long_first else 100, 132000 if long_first else 66000, 1)
         _write_saf(fb, 100 if long_first else 200, 66000 if long_first else 132000, 2)
         m = spec["method"]
-        kw = dict(smoothing=dict(operator="konno_and_ohmachi", bandwidth=40, center_frequencies_in_hz=np.geomspace(0.5, 20, 8)))
-
         def settings():
+            kw = dict(smoothing=dict(operator="konno_and_ohmachi", bandwidth=40, center_frequencies_in_hz=np.geomspace(0.5, 20, 8)))
             pre = hvsrpy.HvsrPreProcessingSettings(window_length_in_seconds=300.0, filter_corner_frequencies_in_hz=[None, None])
+            if spec.get("explicit_fft"):
+                kw["fft_settings"] = {"n": 32768}
             if m == "geometric_mean":
                 pro = hvsrpy.HvsrTraditionalProcessingSettings(**kw)
             elif m == "single_azimuth":
